@@ -270,8 +270,21 @@ def run_single(case):
     return {"events": out, "done": True, "idle": idle, "queue": qlen, "clock": clock[0]}
 
 
-def oracle_events(events, abs_free_required=True):
-    """the property's own oracle on one thread's observable events"""
+def _rel_delays(prog, out=None):
+    out = {} if out is None else out
+    for o in prog or []:
+        if o[0] == "rel":
+            out[o[1]] = o[2]
+        if o[0] in ("sched", "rel", "abs"):
+            _rel_delays(o[-1], out)
+    return out
+
+
+def oracle_events(events, prog=None):
+    """the property's own oracle on one thread's observable events.  `prog` (the program that was run) tells which actions were
+    scheduled with schedule_relative(d): their due time is by definition  now + max(d, 0)  (a negative delay means "now"),
+    whatever due time the implementation computed."""
+    rel = _rel_delays(prog)
     open_ = None
     cancelled = set()
     discarded = set()
@@ -281,7 +294,8 @@ def oracle_events(events, abs_free_required=True):
     for e in events:
         k = e[0]
         if k == "sched":
-            sched[e[1]] = (e[2], e[3], len(order))
+            due = e[3] + max(rel[e[1]], 0) if e[1] in rel else e[2]
+            sched[e[1]] = (due, e[3], len(order))
             order.append(e[1])
         elif k == "cancel":
             cancelled.add(e[1])
@@ -476,18 +490,31 @@ def per_thread_events(res):
     per = {i: [] for i in range(res["n"])}
     ran_on = {}
     sched_on = {}
+    first_read = {}  # thread -> clock of its first unlocked clock read since its last step (= the read schedule* computes dt from)
+    locked = set()
     for e in res["events"]:
         t, k = e[0], e[1]
         if t is None:
             continue
-        if k == "sched":
-            per[t].append(["sched", e[2], e[3], e[4]])
+        if k == "acq" and e[2] == "tr":
+            locked.add(t)
+        elif k == "rel" and e[2] == "tr":
+            locked.discard(t)
+            first_read.pop(t, None)
+        elif k == "now_read":
+            if t not in locked:
+                first_read.setdefault(t, e[2])
+        elif k == "sched":
+            per[t].append(["sched", e[2], e[3], first_read.pop(t, e[4])])
             sched_on[e[2]] = t
         elif k == "start":
+            first_read.pop(t, None)
             per[t].append(["start", e[2], e[3]])
             ran_on[e[2]] = t
-        elif k in ("fin", "skip", "cancel", "raised"):
-            per[t].append([k, e[2]])
+        elif k in ("fin", "skip", "cancel", "raised", "tick"):
+            first_read.pop(t, None)
+            if k != "tick":
+                per[t].append([k, e[2]])
     return per, sched_on, ran_on
 
 
@@ -504,7 +531,7 @@ def oracle_threads(cfg, res):
             if sched_on.get(lbl) != t:
                 return f"action {lbl} scheduled on thread {sched_on.get(lbl)} ran on thread {t} (not on the scheduling thread: the threads' trampolines are not independent)"
         for t, evs in per.items():
-            v = oracle_events(evs) or all_run(evs)
+            v = oracle_events(evs, cfg["progs"][t] if t < len(cfg["progs"]) else None) or all_run(evs)
             if v:
                 return f"thread {t}: {v}"
         return None
